@@ -149,21 +149,43 @@ func loadTable() {
 	for _, c := range tab.Calls {
 		callees[c.Caller] = append(callees[c.Caller], c.Callee)
 	}
+	// reach[f]: the entries that reach f, nearest first (call distance), then the entry with the fewest accesses of
+	// its own first — the most direct way to run f comes first in the plan
+	nrows := map[string]int{}
+	for _, r := range tab.Accesses {
+		nrows[r.Fn]++
+	}
+	dist := map[string]map[string]int{}
 	for _, e := range tab.Entries {
 		entryOf[e.Fn] = e
-		seen := map[string]bool{}
-		var dfs func(f string)
-		dfs = func(f string) {
-			if seen[f] {
-				return
-			}
-			seen[f] = true
-			reach[f] = append(reach[f], e.Fn)
+		d := map[string]int{e.Fn: 0}
+		queue := []string{e.Fn}
+		for len(queue) > 0 {
+			f := queue[0]
+			queue = queue[1:]
 			for _, g := range callees[f] {
-				dfs(g)
+				if _, ok := d[g]; !ok {
+					d[g] = d[f] + 1
+					queue = append(queue, g)
+				}
 			}
 		}
-		dfs(e.Fn)
+		for f := range d {
+			reach[f] = append(reach[f], e.Fn)
+		}
+		dist[e.Fn] = d
+	}
+	for f, es := range reach {
+		sort.Slice(es, func(i, j int) bool {
+			di, dj := dist[es[i]][f], dist[es[j]][f]
+			if di != dj {
+				return di < dj
+			}
+			if nrows[es[i]] != nrows[es[j]] {
+				return nrows[es[i]] < nrows[es[j]]
+			}
+			return es[i] < es[j]
+		})
 	}
 }
 
@@ -678,12 +700,16 @@ func search(ts []triple, per int) {
 			return
 		}
 		retried[round] = len(missing)
+		for _, t := range missing {
+			retriedOps = append(retriedOps, fmt.Sprintf("round %d: %s", round+1, t.op()))
+		}
 		runTriples(missing, 1000, mult, true)
 	}
 }
 
 var zdrvDir string
 var retried [2]int
+var retriedOps []string
 
 // runTriples: run the scenarios that cover the given triples (once per triple unless force).
 func runTriples(ts []triple, per int, mult int, force bool) {
@@ -893,7 +919,7 @@ func main() {
 				"triples_asked": len(ts), "triples_not_driven_listed": skipped, "triples_without_drivable_entries": nd,
 				"race_reports": nReports, "scenarios_run": nScen, "races_observed": obs, "unmapped_reports": unmapped,
 				"ambiguous_reports": ambiguous, "reports_on_other_objects": len(foreign), "reports_on_other_objects_sample": foreign[:min(5, len(foreign))], "hangs": hangs, "panics": panics, "iterations_per_goroutine": iters,
-				"child": childBin, "model_racy_not_yet_seen_before_retry_1_2": retried,
+				"child": childBin, "model_racy_not_yet_seen_before_retry_1_2": retried, "retried": retriedOps,
 			}
 		},
 	})
